@@ -268,6 +268,7 @@ macro_rules! backend_cases {
                     k: TorusPrecision((b2k * size) as u32),
                 };
                 Some(match op {
+                    "split_mut" => kv.g("cnt") * kv.g("len"),
                     "vec_znx_normalize" => module.vec_znx_normalize_tmp_bytes(),
                     "vec_znx_lsh" => module.vec_znx_lsh_tmp_bytes(),
                     "vec_znx_rsh" => module.vec_znx_rsh_tmp_bytes(),
@@ -342,6 +343,22 @@ macro_rules! backend_cases {
                 }
 
                 match op {
+                    // ------------------------------------------------------------------ arena
+                    "split_mut" => {
+                        let (cnt, len) = (kv.g("cnt"), kv.g("len"));
+                        finish!(tb, |s: &mut Scratch<BE>| {
+                            let (ws, _rem) = s.split_mut(cnt, len);
+                            // every window must be writable over its whole length
+                            let mut o = Vec::new();
+                            for (i, w) in ws.into_iter().enumerate() {
+                                o.extend((w.available() as u64).to_le_bytes());
+                                for b in w.data.iter_mut() {
+                                    *b = i as u8 + 1;
+                                }
+                            }
+                            o
+                        })
+                    }
                     // ------------------------------------------------------------------ HAL
                     "vec_znx_normalize" => {
                         let a = rand_vec(n, 1, size, 40, 1);
